@@ -52,7 +52,8 @@ static void hx_child_stop(struct ev_loop *loop, ev_child *c);
 
 /* ================= virtual clock ================= */
 static double hx_now = 1893456000.0;	/* 2030-01-01T00:00:00Z */
-#define HX_T0	1893456000.0
+static double hx_t0 = 1893456000.0;	/* start of virtual time, settable before hx_boot() */
+#define HX_T0	hx_t0
 
 int
 clock_gettime(clockid_t id, struct timespec *ts)
